@@ -82,7 +82,8 @@ fn composites(schema: &SchemaDoc) -> Vec<String> {
     schema.defs.iter().filter(|d| !matches!(d, TypeDef::Extend { .. })).map(|d| d.name().to_string()).filter(|n| is_composite(schema, n)).collect()
 }
 
-pub const EDITS: [&str; 11] = [
+pub const EDITS: [&str; 12] = [
+    "typename_only_in_variant_fragment",
     "unknown_field",
     "subselection_on_leaf",
     "no_subselection_on_composite",
@@ -190,6 +191,35 @@ pub fn apply_edit(rng: &mut Rng, p: &Program, edit: &str) -> Option<Program> {
                     return None;
                 }
             }
+        }
+        "typename_only_in_variant_fragment" => {
+            // the abstract selection loses its own __typename; a spread of a fragment on one of its
+            // possible types (which does select __typename) is added instead
+            let c = pick(rng, pos.into_iter().filter(|(ps, s)| match s {
+                Sel::Field { name, sub, .. } => {
+                    let ft = fields_of(&p.schema, &ps.parent_type).iter().find(|f| &f.name == name).map(|f| f.ty.name().to_string());
+                    match ft {
+                        Some(t) => matches!(p.schema.kind_of(&t), "UNION" | "INTERFACE") && !possible_types(&p.schema, &t).is_empty() && !sub.iter().any(|x| matches!(x, Sel::Spread(_))),
+                        None => false,
+                    }
+                }
+                _ => false,
+            }).collect())?;
+            let (abstract_type, variant) = match &c.1 {
+                Sel::Field { name, .. } => {
+                    let t = fields_of(&p.schema, &c.0.parent_type).iter().find(|f| &f.name == name).unwrap().ty.name().to_string();
+                    let v = possible_types(&p.schema, &t)[0].clone();
+                    (t, v)
+                }
+                _ => return None,
+            };
+            let _ = abstract_type;
+            let (list, i) = at_mut(&mut q.doc, &c.0);
+            if let Sel::Field { sub, .. } = &mut list[i] {
+                sub.retain(|x| !matches!(x, Sel::Field { name, .. } if name == "__typename"));
+                sub.insert(0, Sel::Spread("TypenameCarrier".into()));
+            }
+            q.doc.defs.push(QDef::Frag { name: "TypenameCarrier".into(), on: variant, sel: vec![Sel::typename()] });
         }
         "subscription_two_root_fields" => {
             let idx = q.doc.defs.iter().position(|d| matches!(d, QDef::Op { kind: OpKind::Subscription, .. }))?;
